@@ -25,6 +25,8 @@ def keyfn(row):
     p = row.get("p", {})
     op = row.get("op", {})
     kind, t, tag = p.get("kind", "?"), op.get("t", row.get("ev", "?")), row.get("_tag") or "?"
+    if row.get("ev") == "Hang":
+        return "%s:%s:hang" % (kind, t)     # the call did not return (driver watchdog)
     if t == "Grow" and kind == "rm" and tag in ("crash", "post"):
         c0, k = row.get("c0", 0), op.get("k", 0)
         new = c0 + k
